@@ -119,10 +119,12 @@ type gUnion struct {
 var gRecords = []gRecord{
 	{"Pt", []gField{{"x", tInt}, {"y", tInt}}},
 	{"Person", []gField{{"Name", tStr}, {"Age", tInt}}},
+	{"Holder", []gField{{"tag", tInt}, {"shape", &gty{k: "uni", name: "Poly"}}}},
 }
 var gUnions = []gUnion{
 	{"Shape", []gCase{{"Circle", tInt}, {"Rect", &gty{k: "rec", name: "Pt"}}, {"Named", tStr}, {"Blank", nil}}},
 	{"Opt", []gCase{{"Some", tInt}, {"None", nil}}},
+	{"Poly", []gCase{{"Pts", tSlice(tInt)}, {"Nop", nil}}},
 }
 
 func gRecOf(name string) *gRecord {
@@ -161,6 +163,12 @@ type Shape =
 type Opt =
   | Some of int
   | None
+
+type Poly =
+  | Pts of []int
+  | Nop
+
+type Holder = {tag: int; shape: Poly}
 
 let trI (tag:string) (v:int) =
   frt.Println tag
@@ -636,7 +644,22 @@ func (e *gnode) asBlock(l *glayout, ind string) string {
 	if e.op == "block" {
 		return e.blockLines(l, ind)
 	}
-	return ind + e.stmt(l, ind) + l.eol()
+	return ind + gNoLeadInterp(e.stmt(l, ind)) + l.eol()
+}
+
+// a line must not START with an interpolated literal: its token begins one byte late (known finding
+// D13), which moves the statement into a block that is one column deeper.  The literal is
+// parenthesised instead.
+func gNoLeadInterp(txt string) string {
+	if !strings.HasPrefix(txt, "$\"") {
+		return txt
+	}
+	end := strings.Index(txt[2:], "\"")
+	if end < 0 {
+		return txt
+	}
+	end += 3
+	return "(" + txt[:end] + ")" + txt[end:]
 }
 
 func (e *gnode) blockLines(l *glayout, ind string) string {
@@ -671,19 +694,19 @@ func (e *gnode) blockLines(l *glayout, ind string) string {
 			case s.e.isInlineable() && s.e.op != "pipe":
 				// right-hand side on the next line
 				in2 := ind + strings.Repeat(" ", l.indentDelta())
-				sb.WriteString(l.eol() + "\n" + in2 + s.e.inline(l) + l.eol())
+				sb.WriteString(l.eol() + "\n" + in2 + gNoLeadInterp(s.e.inline(l)) + l.eol())
 			default:
 				// multi-line right-hand side starts on the next line, as a block of its own
 				in2 := ind + strings.Repeat(" ", l.indentDelta())
 				sb.WriteString(l.eol() + "\n" + s.e.asBlock(l, in2))
 			}
 		case "do":
-			sb.WriteString(s.e.stmt(l, ind) + l.eol())
+			sb.WriteString(gNoLeadInterp(s.e.stmt(l, ind)) + l.eol())
 		}
 		sb.WriteString("\n")
 	}
 	sb.WriteString(l.between(ind))
-	sb.WriteString(ind + e.kids[0].stmt(l, ind) + l.eol())
+	sb.WriteString(ind + gNoLeadInterp(e.kids[0].stmt(l, ind)) + l.eol())
 	return sb.String()
 }
 
@@ -727,6 +750,7 @@ type ggen struct {
 	tags  int
 	funcs []*gfunc
 	feat  map[string]int
+	noMul bool // inside a recursive function: no multiplication (integers must stay small: the models do not wrap)
 }
 
 func (g *ggen) fresh(p string) string { g.seq++; return p + strconv.Itoa(g.seq) }
@@ -877,7 +901,7 @@ func (g *ggen) inline(env genv, t *gty, d int) *gnode {
 		switch g.r.Intn(9) {
 		case 0, 1:
 			op := []string{"+", "-", "*"}[g.r.Intn(3)]
-			if gTiny && op == "*" {
+			if (gTiny || g.noMul) && op == "*" {
 				op = "-"
 			}
 			return &gnode{op: "bin", s: op, kids: []*gnode{g.inline(env, tInt, d-1), g.inline(env, tInt, d-1)}, t: t}
@@ -954,9 +978,17 @@ func (g *ggen) inline(env genv, t *gty, d int) *gnode {
 			return &gnode{op: "tr", s: g.tag(), kids: []*gnode{g.inline(env, tBool, d-1)}, t: t}
 		case 5:
 			// structural equality on a first-order type
-			et := []*gty{tInt, tStr, {k: "rec", name: "Pt"}, tSlice(tInt), tTup(tInt, tStr), {k: "uni", name: "Opt"}}[g.r.Intn(6)]
+			et := []*gty{tInt, tStr, {k: "rec", name: "Pt"}, tSlice(tInt), tTup(tInt, tStr), {k: "uni", name: "Opt"},
+				{k: "rec", name: "Holder"}, {k: "uni", name: "Poly"}}[g.r.Intn(8)]
 			g.hit("equality-" + et.k)
-			return &gnode{op: "bin", s: []string{"=", "<>"}[g.r.Intn(2)], kids: []*gnode{g.inline(env, et, d-1), g.inline(env, et, d-1)}, t: t}
+			lhs := g.inline(env, et, d-1)
+			rhs := lhs // half of the comparisons are between equal values (the same expression twice)
+			if g.r.Intn(2) == 0 {
+				rhs = g.inline(env, et, d-1)
+			} else {
+				g.hit("equality-of-equal-values")
+			}
+			return &gnode{op: "bin", s: []string{"=", "<>"}[g.r.Intn(2)], kids: []*gnode{lhs, rhs}, t: t}
 		}
 	case "slice":
 		switch g.r.Intn(5) {
@@ -1365,6 +1397,14 @@ func (g *ggen) program(name string) []*gfunc {
 		f := &gfunc{name: name + "_r", params: []string{"n", "acc"}, ptys: []*gty{tInt, rt}, ret: rt,
 			annot: []bool{true, true}, rec: true, retAnn: true}
 		envr := env.with("n", tInt).with("acc", rt)
+		// the accumulator must not grow multiplicatively (no `*`, no mulAdd)
+		envr.funcs = nil
+		for _, hf := range env.funcs {
+			if hf.name != "mulAdd" {
+				envr.funcs = append(envr.funcs, hf)
+			}
+		}
+		g.noMul = true
 		nv := &gnode{op: "var", s: "n", t: tInt}
 		base := &gnode{op: "block", t: rt, kids: []*gnode{g.inline(envr, rt, 1)}}
 		next := &gnode{op: "call", s: f.name, n: 2, t: rt, kids: []*gnode{
@@ -1374,6 +1414,7 @@ func (g *ggen) program(name string) []*gfunc {
 			stmts: []*gstmt{{kind: "do", e: &gnode{op: "printf1", s: "r%d;\n", t: tUnit, kids: []*gnode{nv}}}}}
 		cond := &gnode{op: "bin", s: "<=", t: tBool, kids: []*gnode{nv, {op: "int", n: 0, t: tInt}}}
 		f.body = &gnode{op: "block", t: rt, kids: []*gnode{{op: "if", t: rt, kids: []*gnode{cond, base, step}}}}
+		g.noMul = false
 		fs = append(fs, f)
 		env.funcs = append(env.funcs, f)
 		g.hit("recursive-function")
